@@ -18,6 +18,10 @@ template Graph::Graph(RenderType, const Graph&, const Graph&);
 // the composite adjactor's image iterator (constructors, increment, dereference)
 template class FEAT::Adjacency::CompositeAdjactor<Graph, Graph>;
 
+// render constructors of the dynamic graph (plain / transposed, single / composite)
+template DynamicGraph::DynamicGraph(RenderType, const Graph&);
+template DynamicGraph::DynamicGraph(RenderType, const Graph&, const Graph&);
+
 // in-situ composition of a dynamic graph with an adjactor
 template void DynamicGraph::compose<Graph>(const Graph&);
 
@@ -33,8 +37,6 @@ template Graph::Graph(RenderType, const CompositeAdjactor<Graph, Graph>&);
 template Graph::Graph(RenderType, const Graph&, const CompositeAdjactor<Graph, Graph>&);
 template Graph::Graph(RenderType, const Geometry::IndexSet<4>&);
 template Graph::Graph(RenderType, const Geometry::IndexSet<4>&, const Graph&);
-template DynamicGraph::DynamicGraph(RenderType, const Graph&);
-template DynamicGraph::DynamicGraph(RenderType, const Graph&, const Graph&);
 template void Permutation::apply<float>(float*, bool) const;
 template void Permutation::apply<float, double>(float*, const double*, bool) const;
 #endif
